@@ -55,7 +55,7 @@ def sub_scalar(cls: str):
         c.kwargs()
         for f in S.reach_def(ct, cls, Sx):
             c.requires(f)
-        c.requires(S.float_range(v), "float-repr")
+        c.requires(S.deep_range(v), "float-repr")
         c.paths()
         c.raises("SubstitutionError", props=("C12", "C04", "C05"))
         c.raises_when("SubstitutionError", z3.Not(S.conforms_def(ct, cls, Sx, v)))
@@ -214,7 +214,7 @@ _REG.axiom_fns.append(_denotes_axioms)
 def _from_native(c):
     ct = c.ct
     x = c.sym("value")
-    c.requires(S.float_range(x), "float-repr")
+    c.requires(S.deep_range(x), "float-repr")
     c.raises("ValueError", "DeclarationError", props=("C14", "C12"))
     c.returns(None)
     w = z3.Const("fw", Obj)
